@@ -1,5 +1,6 @@
 import H4.ReadOnly
 import H4.Driver.Util
+import H4.Driver.Attr
 namespace H4.Driver
 open H4.ReadOnly
 
@@ -10,6 +11,46 @@ structure RoSt where
   s : State := State.closed []
   fmap : List Nat := []
   amap : List Nat := []
+  /-- part B, SD interface: the SD file machine (`H4.AttrSD`) of the read-only session; `sdLoad` collects what the harness
+      found in the file (`sd.dim` / `sd.var` / `sd.att` lines) until `sd.start r` opens it -/
+  sd : AttrSD.File := {}
+  sdLoad : AttrSD.Disk := {}
+
+/-- the `sd.*` lines of engine `ro`: a description of the file as `hdf_read_xdr_cdf` built it (dimension table, variables,
+    attribute lists), then `sd.start r`, then the calls of the session.  `sd.diminfo3` is `SDdiminfo` without the scale type
+    (the C reports it from `numrecs`, which a READ of the coordinate variable's data raises: not part of this model). -/
+def stepRoSd (st : RoSt) (args : List String) : RoSt × String :=
+  let n (t : String) : Nat := t.toNat?.getD 0
+  match args with
+  | ["sd.dim", nm, sz] => match parseHex nm with
+    | some b => ({ st with sdLoad := { st.sdLoad with dims := st.sdLoad.dims ++ [⟨b, n sz⟩] } }, "ok")
+    | none => (st, "bad-op")
+  | ["sd.var", nm, nt, slots, vt, rf, hd] => match parseHex nm, natList slots with
+    | some b, some sl =>
+      let v : AttrSD.Var := { name := b, hdftype := n nt, dims := sl, attrs := [], vtype := n vt, ref := n rf, hasData := hd != "0", scale := [] }
+      ({ st with sdLoad := { st.sdLoad with vars := st.sdLoad.vars ++ [v] } }, "ok")
+    | _, _ => (st, "bad-op")
+  | ["sd.att", tgt, nm, nt, cnt, val] => match parseHex nm, parseHex val with
+    | some b, some vb =>
+      let a : H4.Attr.Attr := { name := b, nt := n nt, count := n cnt, val := vb }
+      if tgt == "g" then ({ st with sdLoad := { st.sdLoad with gattrs := st.sdLoad.gattrs ++ [a] } }, "ok")
+      else match (tgt.drop 1).toString.toNat? with
+        | some i =>
+          if tgt.startsWith "v" && i < st.sdLoad.vars.length then
+            let v := st.sdLoad.vars.getD i default
+            ({ st with sdLoad := { st.sdLoad with vars := st.sdLoad.vars.set i { v with attrs := v.attrs ++ [a] } } }, "ok")
+          else (st, "bad-op")
+        | none => (st, "bad-op")
+    | _, _ => (st, "bad-op")
+  | ["sd.start", "r"] => ({ st with sd := AttrSD.openF { disk := st.sdLoad } false }, "ok")
+  | ["sd.diminfo3", s] =>
+    match AttrSD.sdDimInfo st.sd (n s) with
+    | (f, .items [a, b, _, d]) => ({ st with sd := f }, showAttrOut (.items [a, b, d]))
+    | (f, o) => ({ st with sd := f }, showAttrOut o)
+  | _ =>
+    match sdStep st.sd args with
+    | some (f, o) => ({ st with sd := f }, showAttrOut o)
+    | none => (st, "bad-op")
 
 private def hdl (pfx : Char) (m : List Nat) (t : String) : Nat :=
   match t.toList with
@@ -29,7 +70,7 @@ private def showRes (st : RoSt) (r : State × Res) (kind : Char) : RoSt × Strin
     if kind == 'f' then ({ st with s := r.1, fmap := st.fmap ++ [n] }, s!"f{st.fmap.length}")
     else ({ st with s := r.1, amap := st.amap ++ [n] }, s!"a{st.amap.length}")
 
-def stepRo (st : RoSt) (args : List String) : RoSt × String :=
+def stepRoH (st : RoSt) (args : List String) : RoSt × String :=
   let cfg := Cfg.current
   let F := hdl 'f' st.fmap
   let A := hdl 'a' st.amap
@@ -83,5 +124,10 @@ def stepRo (st : RoSt) (args : List String) : RoSt × String :=
   | ["log"] => (st, toString st.s.log.length)
   | ["state"] => (st, s!"acc={st.s.f.access},rc={st.s.f.refcount},att={st.s.f.attach},dirty={st.s.f.dirty},end={st.s.f.endOff}")
   | _ => (st, "bad-op")
+
+def stepRo (st : RoSt) (args : List String) : RoSt × String :=
+  match args with
+  | op :: _ => if op.startsWith "sd." then stepRoSd st args else stepRoH st args
+  | [] => (st, "bad-op")
 
 end H4.Driver
